@@ -1,4 +1,6 @@
 import Pyunicorn.Lemmas.VisibilityExt
+import Pyunicorn.Lemmas.VisibilityBetw
+import Pyunicorn.Lemmas.VisibilityFloat
 import Pyunicorn.Generated.ArithC14
 /-!
 # C14 — visibility graphs realise the geometric visibility criterion
@@ -956,5 +958,235 @@ theorem model_uses_source_expressions (N : Nat) (A : List (List Bool)) (i d : Na
   simp only [Generated.ArithC14.bcDen]
   congr 1
   omega
+
+/-! # Round 3
+
+1. `retarded_betweenness`, `advanced_betweenness`, `trans_betweenness`: the code is modelled
+   by C03's kernel model (`retBetw`, `advBetw`, `transBetw` in `Model/VisibilityBetw.lean`);
+   the theorems are about the pair-dependency *definition* `betwSpec` (shortest-path counts
+   `sigma` = walks with `pathLen` links).  The driver evaluates both and the harness compares
+   both with the implementation on every case (kernel model = definition is **not proved** —
+   that is Brandes' theorem for C03's kernel; it is checked per case).
+2. the float kernel under a monotone rounding with exact differences is a subgraph of the
+   exact graph; the horizontal graph depends only on the order of the samples.
+3. loop bounds of the five Cython kernels and the index arrays of the three betweenness
+   methods regenerated from the source. -/
+
+theorem symM_adjMat (N : Nat) (log : List (Nat × Nat)) : SymM N (adjMat N log) := by
+  intro i j hi hj
+  rw [mat_adjMat N log i j hi hj, mat_adjMat N log j i hj hi, entry_symm]
+
+/-- **retarded ↔ advanced betweenness, trans-betweenness mirrored** under time reversal, for
+any two mirrored logs: with respect to the pair-dependency definition, the retarded
+betweenness of the reversed series is the reversed advanced betweenness of the original
+one and vice versa, and `trans_betweenness` (sources in the past, targets in the future —
+roles exchanged by the mirror, equal because the matrix is symmetric) is mirrored. -/
+theorem reverse_exchanges_betweenness (N : Nat) (log log' : List (Nat × Nat))
+    (hm : ∀ a b, a < N → b < N → entry log' a b = entry log (N - 1 - a) (N - 1 - b))
+    (a : Nat) (ha : a < N) :
+    retBetwSpec N (adjMat N log') a = advBetwSpec N (adjMat N log) (N - 1 - a) ∧
+    advBetwSpec N (adjMat N log') a = retBetwSpec N (adjMat N log) (N - 1 - a) ∧
+    transBetwSpec N (adjMat N log') a = transBetwSpec N (adjMat N log) (N - 1 - a) :=
+  ⟨retBetwSpec_mirror N _ _ (mirrored_adjMat N log log' hm) a ha,
+   advBetwSpec_mirror N _ _ (mirrored_adjMat N log log' hm) a ha,
+   transBetwSpec_mirror_symm N _ _ (mirrored_adjMat N log log' hm) (symM_adjMat N log) a ha⟩
+
+/-- composed for `VisibilityGraph(x, t, missing_values=True)` and its time reversal -/
+theorem class_reverse_exchanges_betweenness_nvg (x : List Val) (t : List Rat) (c : Rat)
+    (ht : t.length = x.length) (inc : ∀ a b, a < b → b < x.length → tAt t a < tAt t b) :
+    ∃ log log', classLog x (some t) true false = .ok log ∧
+      classLog x.reverse (some (revT c t)) true false = .ok log' ∧
+      let N := x.length
+      let A := adjMat N log
+      let A' := adjMat N log'
+      ∀ a, a < N → retBetwSpec N A' a = advBetwSpec N A (N - 1 - a) ∧
+        advBetwSpec N A' a = retBetwSpec N A (N - 1 - a) ∧
+        transBetwSpec N A' a = transBetwSpec N A (N - 1 - a) := by
+  have g : Good x t (some (nanMask x)) x.length :=
+    ⟨Nat.le_refl _, by omega, by intro m hm; cases hm; simp [nanMask], inc⟩
+  obtain ⟨log, log', h1, h2, hm⟩ := reverse_mirrors_nvg_mv x t c x.length rfl ht g
+  exact ⟨log, log', by rw [class_nvg_missing]; exact h1,
+    by rw [class_nvg_missing, List.length_reverse]; exact h2,
+    fun a ha => reverse_exchanges_betweenness _ log log' hm a ha⟩
+
+/-- the same for `VisibilityGraph(x, horizontal=True, missing_values=True)` -/
+theorem class_reverse_exchanges_betweenness_hvg (x : List Val) (tm tm' : Option (List Rat)) :
+    ∃ log log', classLog x tm true true = .ok log ∧
+      classLog x.reverse tm' true true = .ok log' ∧
+      let N := x.length
+      let A := adjMat N log
+      let A' := adjMat N log'
+      ∀ a, a < N → retBetwSpec N A' a = advBetwSpec N A (N - 1 - a) ∧
+        advBetwSpec N A' a = retBetwSpec N A (N - 1 - a) ∧
+        transBetwSpec N A' a = transBetwSpec N A (N - 1 - a) := by
+  obtain ⟨log, log', h1, h2, hm⟩ := reverse_mirrors_hvg x tm tm'
+  exact ⟨log, log', h1, h2, fun a ha => reverse_exchanges_betweenness _ log log' hm a ha⟩
+
+/-- the first sample has no past, the last no future: all three measures vanish there
+(definition), and `trans_betweenness` vanishes at both ends -/
+theorem betweenness_at_the_ends (N : Nat) (A : List (List Bool)) (hN : 0 < N) :
+    retBetwSpec N A 0 = 0 ∧ advBetwSpec N A (N - 1) = 0 ∧
+    transBetwSpec N A 0 = 0 ∧ transBetwSpec N A (N - 1) = 0 := by
+  have e : N - (N - 1 + 1) = 0 := by omega
+  refine ⟨by simp [retBetwSpec, betwSpec, pastIdx], by simp [advBetwSpec, betwSpec, futureIdx, e],
+    by simp [transBetwSpec, betwSpec, pastIdx], by simp [transBetwSpec, betwSpec, futureIdx, e]⟩
+
+/-- shortest-path counts and pair dependencies do not depend on the direction on a symmetric
+matrix (used for `trans_betweenness`; also: what the model calls `sigma` is symmetric, as the
+number of shortest paths must be) -/
+theorem pair_dependency_symmetric (N : Nat) (log : List (Nat × Nat)) (t s l : Nat)
+    (ht : t < N) (hs : s < N) (hl : l < N) :
+    sigma N (adjMat N log) t s = sigma N (adjMat N log) s t ∧
+    pairDep N (adjMat N log) t s l = pairDep N (adjMat N log) s t l :=
+  ⟨sigma_symm N _ (symM_adjMat N log) t s ht hs,
+   pairDep_symm N _ (symM_adjMat N log) t s l ht hs hl⟩
+
+/-! ## float arithmetic -/
+
+/-- **the float kernel never invents a link**: for every *monotone* rounding `rnd` that is
+exact on the differences `x[k] - x[i]`, `t[k] - t[i]` the kernels form (`ExactDiffs`, decided by
+the driver for the data of the correspondence), any mask and increasing timings, both the
+rounded and the exact natural kernel succeed and every pair written by the rounded kernel is
+written by the exact one (`rnd s_k < rnd s_j ⇒ s_k < s_j`).  The converse fails (example below):
+two distinct slopes may round to the same float. -/
+theorem nvg_float_subgraph (rnd : Rat → Rat) (hmono : MonoRnd rnd) (x : List Val) (t : List Rat)
+    (mv : Option (List Bool)) (N : Nat) (g : Good x t mv N) (hex : ExactDiffs rnd x t N) :
+    ∃ logR logE, kernelNR rnd x t mv N = .ok logR ∧ kernelN x t mv N = .ok logE ∧
+      ∀ p, p ∈ logR → p ∈ logE :=
+  kernelNR_subgraph rnd hmono x t mv N g hex
+
+/-- hence every link of the float kernel joins two mutually visible samples -/
+theorem nvg_float_links_are_visible (rnd : Rat → Rat) (hmono : MonoRnd rnd) (x : List Val)
+    (t : List Rat) (N : Nat) (g : Good x t (some (nanMask x)) N) (hex : ExactDiffs rnd x t N) :
+    ∃ logR, kernelNR rnd x t (some (nanMask x)) N = .ok logR ∧
+      ∀ a b, (a, b) ∈ logR → a < b ∧ b < N ∧ NVisible x t a b := by
+  obtain ⟨logR, logE, h1, h2, h3⟩ := kernelNR_subgraph rnd hmono x t _ N g hex
+  obtain ⟨log, h4, h5⟩ := nvg_mv_iff x t N g
+  rw [h2] at h4
+  cases h4
+  exact ⟨logR, h1, fun a b hab => (h5 a b).mp (h3 _ hab)⟩
+
+/-- **the horizontal kernel depends only on the order of the samples**: any map of the
+values that preserves the comparisons between the samples of the series (`OrdOn`,
+decidable) — every strictly increasing map, in particular every positive affine map, and the
+float64 → float32 conversion of the constructor as long as it keeps distinct samples
+apart — leaves the result of the kernel and of the constructor unchanged (same log or same
+error, both settings of `missing_values`). -/
+theorem hvg_order_invariant (f : Rat → Rat) (x : List Val) (h : OrdOn f x) (N : Nat)
+    (tm : Option (List Rat)) (missing : Bool) :
+    kernelH (x.map (Option.map f)) N = kernelH x N ∧
+    classLog (x.map (Option.map f)) tm missing true = classLog x tm missing true :=
+  ⟨kernelH_ordOn f x h N, classLog_hvg_ordOn f x h tm missing⟩
+
+theorem hvg_strictMono_invariant (f : Rat → Rat) (hf : ∀ a b, f a < f b ↔ a < b) (x : List Val)
+    (N : Nat) : kernelH (x.map (Option.map f)) N = kernelH x N :=
+  kernelH_ordOn f x (ordOn_of_strictMono f hf x) N
+
+/-! non-vacuity: `Rat.floor` as a rounding (monotone, exact on integer differences): the
+hypotheses of `nvg_float_subgraph` hold on integer data, the float graph is a *proper*
+subgraph (slopes 0 and 1/2 both round to 0). -/
+def rndFloor (q : Rat) : Rat := (q.floor : Rat)
+
+theorem rndFloor_mono : MonoRnd rndFloor := by
+  intro a b h
+  simp only [rndFloor]
+  have : a.floor ≤ b.floor := by
+    rw [Rat.le_floor_iff]; exact le_trans (Rat.floor_le a) h
+  exact_mod_cast this
+
+example : ExactDiffs rndFloor [some 0, some 0, some 1] [0, 1, 2] 3 := by decide +kernel
+example : kernelNR rndFloor [some 0, some 0, some 1] [0, 1, 2] none 3 = .ok [(0, 1), (1, 2)] := by
+  decide +kernel
+example : kernelN [some 0, some 0, some 1] [0, 1, 2] none 3 = .ok [(0, 2), (0, 1), (1, 2)] := by
+  decide +kernel
+/-- a cube is strictly increasing but not affine -/
+example : OrdOn (fun r => r * r * r) [some 1, none, some (-2), some 1] := by decide +kernel
+example : retBetwSpec 5 (adjMat 5 [(0, 1), (1, 2), (2, 3), (3, 4)]) 4 = 0 := by decide +kernel
+example : transBetwSpec 3 (adjMat 3 [(0, 1), (1, 2)]) 1 = 1 := by decide +kernel
+example : retBetw 3 (adjMat 3 [(0, 1), (1, 2)]) 2 = 0 ∧ transBetw 3 (adjMat 3 [(0, 1), (1, 2)]) 1 = 1 := by
+  decide +kernel
+
+/-! ## towards "`rndF32` is IEEE rounding": the integer rounding step
+
+`rndF32 q = roundEven (|q| / 2^e) · 2^e` with `e = max(⌊log₂|q|⌋ - 23, -149)`.  Proved here: the
+integer step is round-to-nearest (error ≤ 1/2), fixes integers and is monotone.  Still open:
+`floorLog2` is the floor of the binary logarithm, and monotonicity across exponent boundaries. -/
+
+theorem roundEven_nearest (m : Rat) :
+    ((roundEven m : Int) : Rat) - m ≤ 1 / 2 ∧ m - ((roundEven m : Int) : Rat) ≤ 1 / 2 := by
+  have h1 := Rat.floor_le m
+  have h2 : m < (m.floor : Rat) + 1 := by
+    have := Rat.lt_floor_add_one m; push_cast at this; exact this
+  simp only [roundEven]
+  split
+  · constructor <;> linarith
+  · split
+    · push_cast; constructor <;> linarith
+    · split
+      · constructor <;> linarith
+      · push_cast; constructor <;> linarith
+
+theorem roundEven_int (z : Int) : roundEven (z : Rat) = z := by
+  simp [roundEven, Rat.floor_intCast]
+
+theorem roundEven_mono (a b : Rat) (h : a ≤ b) : roundEven a ≤ roundEven b := by
+  have hf : a.floor ≤ b.floor := by
+    rw [Rat.le_floor_iff]; exact le_trans (Rat.floor_le a) h
+  rcases lt_or_eq_of_le hf with hlt | heq
+  · have h1 : roundEven a ≤ a.floor + 1 := by simp only [roundEven]; split_ifs <;> omega
+    have h2 : b.floor ≤ roundEven b := by simp only [roundEven]; split_ifs <;> omega
+    omega
+  · have hr : a - (b.floor : Rat) ≤ b - (b.floor : Rat) := by linarith
+    simp only [roundEven, heq]
+    split_ifs <;> first | omega | (exfalso; linarith)
+
+example : roundEven (5 / 2) = 2 ∧ roundEven (7 / 2) = 4 ∧ roundEven (-5 / 2) = -2 := by decide +kernel
+example : rndF32 (1 / 3) = 11184811 / 33554432 := by decide +kernel
+
+/-! ## loop bounds of the Cython kernels and index arrays of the betweenness methods,
+regenerated from `numerics.pyx` / `visibility_graph.py` (`translate/arith_C14.json`) -/
+
+/-- `for i in range(outer(N)): for j in range(lo(i), hi(N))` -/
+def pairsOf (outer lo hi : Int → Int) (N : Nat) : List (Nat × Nat) :=
+  (List.range (outer (N : Int)).toNat).flatMap fun (i : Nat) =>
+    (List.range' (lo (i : Int)).toNat ((hi (N : Int)).toNat - (lo (i : Int)).toNat)).map
+      fun (j : Nat) => (i, j)
+
+section
+open Generated.ArithC14
+/-- the model's loops are the source's loops: far pairs, consecutive pairs and the start of
+the inner `while` of the three visibility kernels; the pair loops of the two clustering kernels
+(outer loop `range(N)` / `range(N-2)`); `np.arange(i)`, `np.arange(i+1, self.N)` of the three
+betweenness methods -/
+theorem kernel_loops_use_source_expressions (N i : Nat) :
+    farPairs N = pairsOf nvgmvOuter nvgmvInnerLo nvgmvInnerHi N ∧
+    farPairs N = pairsOf nvgOuter nvgInnerLo nvgInnerHi N ∧
+    farPairs N = pairsOf hvgOuter hvgInnerLo hvgInnerHi N ∧
+    adjPairs N = (List.range (nvgmvAdjStop N).toNat).map (fun i => (i, i + 1)) ∧
+    adjPairs N = (List.range (nvgAdjStop N).toNat).map (fun i => (i, i + 1)) ∧
+    adjPairs N = (List.range (hvgAdjStop N).toNat).map (fun i => (i, i + 1)) ∧
+    (nvgmvScanStart i).toNat = i + 1 ∧ (nvgScanStart i).toNat = i + 1 ∧
+    (hvgScanStart i).toNat = i + 1 ∧
+    retPairs i = (List.range (retcJStop i).toNat).flatMap
+      (fun (j : Nat) => (List.range (retcKStop j).toNat).map fun (k : Nat) => (j, k)) ∧
+    advPairs N i = (List.range' (advcJLo i).toNat ((advcJHi N).toNat - (advcJLo i).toNat)).flatMap
+      (fun (j : Nat) => (List.range' (advcKLo i).toNat ((advcKHi j).toNat - (advcKLo i).toNat)).map
+        fun (k : Nat) => (j, k)) ∧
+    (retcOuter N).toNat = N ∧ (advcOuter N).toNat = N - 2 ∧
+    pastIdx i = List.range (rbPastStop i).toNat ∧
+    futureIdx N i = List.range' (abFutStart i).toNat ((abFutStop N).toNat - (abFutStart i).toNat) ∧
+    pastIdx i = List.range (tbPastStop i).toNat ∧
+    futureIdx N i = List.range' (tbFutStart i).toNat ((tbFutStop N).toNat - (tbFutStart i).toNat) := by
+  have e1 : ((N : Int) - 2).toNat = N - 2 := by omega
+  have e2 : ∀ k : Nat, ((k : Int) + 2).toNat = k + 2 := by intro k; omega
+  have e3 : ∀ k : Nat, ((k : Int) + 1).toNat = k + 1 := by intro k; omega
+  have e4 : ((N : Int) - 1).toNat = N - 1 := by omega
+  simp only [farPairs, adjPairs, retPairs, advPairs, pastIdx, futureIdx, pairsOf,
+    nvgmvOuter, nvgmvInnerLo, nvgmvInnerHi, nvgOuter, nvgInnerLo, nvgInnerHi, hvgOuter, hvgInnerLo,
+    hvgInnerHi, nvgmvAdjStop, nvgAdjStop, hvgAdjStop, nvgmvScanStart, nvgScanStart, hvgScanStart,
+    retcJStop, retcKStop, advcJLo, advcJHi, advcKLo, advcKHi, retcOuter, advcOuter, rbPastStop,
+    abFutStart, abFutStop, tbPastStop, tbFutStart, tbFutStop, e1, e2, e3, e4, Int.toNat_natCast,
+    and_self]
+end
 
 end Pyunicorn.Visibility
